@@ -1,5 +1,5 @@
 SPECIFICATION Spec
-CONSTANTS NId = 2  NMeta = 2  MaxPkt = 3  MaxCalls = 3  Respond = TRUE  Mut = "none"
+CONSTANTS NId = 2  NMeta = 2  MaxPkt = 3  MaxCalls = 3  NResp = 2  Respond = TRUE  Mut = "none"
 INVARIANT NoViolation
 VIEW View
 CHECK_DEADLOCK FALSE
